@@ -19,8 +19,28 @@ class Boom(Exception):
     """Planted failure of an expression."""
 
 
-class OneShot:
-    """Marker recipe for a one-shot iterator."""
+class CustomError(Exception):
+    """A user-defined exception class with two constructor arguments and an attribute."""
+
+    def __init__(self, a=None, b=None):
+        Exception.__init__(self, a, b)
+        self.extra = 'x'
+
+
+import builtins as _b   # noqa: E402
+EXC = {'Boom': Boom, 'CustomError': CustomError}
+for _n in ('AttributeError', 'NameError', 'KeyError', 'IndexError', 'LookupError', 'TypeError', 'ValueError',
+           'UnboundLocalError', 'ZeroDivisionError', 'RuntimeError', 'OSError', 'AssertionError', 'StopIteration',
+           'ImportError', 'ArithmeticError', 'NotImplementedError'):
+    EXC[_n] = getattr(_b, _n)
+FALLTHROUGH = (AttributeError, NameError, LookupError, TypeError, ValueError)
+EXISTS_CATCH = (AttributeError, LookupError, TypeError, NameError)
+
+
+def make_exc(name, rid):
+    if name == 'UnicodeDecodeError':
+        return UnicodeDecodeError('utf-8', b'\xff', 0, 1, 'planted %s' % rid)
+    return EXC[name](rid)
 
 
 RECIPES = {
@@ -111,6 +131,11 @@ class El:
 #   'omit': None | rid      'attributes': [(name, rid)]     'on-error': (mode, rid)
 
 
+def E(x):
+    """Serialise an expression slot: an int is the recording callable f(<id>)."""
+    return 'f(%d)' % x if isinstance(x, int) else x.ser()
+
+
 STMT_ORDER = ['define', 'switch', 'case', 'condition', 'repeat', 'content', 'replace', 'omit', 'attributes', 'on-error']
 
 
@@ -119,20 +144,20 @@ def ser_stmt(kind, v):
         parts = []
         for scope, names, rid in v:
             nm = names[0] if len(names) == 1 else '(%s)' % ', '.join(names)
-            parts.append(('' if scope == 'local' else 'global ') + '%s f(%d)' % (nm, rid))
+            parts.append(('' if scope == 'local' else 'global ') + '%s %s' % (nm, E(rid)))
         return 'tal:define="%s"' % '; '.join(parts)
     if kind == 'repeat':
         names, rid = v
         nm = names[0] if len(names) == 1 else '(%s)' % ', '.join(names)
-        return 'tal:repeat="%s f(%d)"' % (nm, rid)
+        return 'tal:repeat="%s %s"' % (nm, E(rid))
     if kind == 'attributes':
-        return 'tal:attributes="%s"' % '; '.join('%s f(%d)' % a for a in v)
+        return 'tal:attributes="%s"' % '; '.join('%s %s' % (a[0], E(a[1])) for a in v)
     if kind == 'omit':
-        return 'tal:omit-tag="%s"' % ('' if v is None else 'f(%d)' % v)
+        return 'tal:omit-tag="%s"' % ('' if v is None else E(v))
     if kind in ('content', 'replace', 'on-error'):
         mode, rid = v
-        return 'tal:%s="%sf(%d)"' % (kind, '' if mode == 'text' else 'structure ', rid)
-    return 'tal:%s="f(%d)"' % (kind, v)
+        return 'tal:%s="%s%s"' % (kind, '' if mode == 'text' else 'structure ', E(rid))
+    return 'tal:%s="%s"' % (kind, E(v))
 
 
 def serialise(node, perm_rng=None):
@@ -140,7 +165,9 @@ def serialise(node, perm_rng=None):
         return node.s
     if isinstance(node, Probe):
         return '[' + ''.join("${%s|'U'}" % n for n in node.names) + ']'
-    sparts = ['%s="%s"' % (k, v) for k, v in node.statics]
+    if isinstance(node, IText):
+        return ''.join(p[1] if p[0] == 'lit' else '${%s}' % E(p[1]) for p in node.parts)
+    sparts = ['%s="%s"' % (k, v if isinstance(v, str) else serialise(v)) for k, v in node.statics]
     parts = [ser_stmt(k, node.stmts[k]) for k in STMT_ORDER if k in node.stmts]
     if perm_rng is not None:
         perm_rng.shuffle(parts)
@@ -169,7 +196,8 @@ class Skip(Exception):
 class Model:
     """quirks: set of known-mechanism names switched on in the *alternate* models."""
 
-    def __init__(self, table, quirks=()):
+    def __init__(self, table, quirks=(), extra=None):
+        self.extra = extra or {}    # caller-supplied variables (besides f)
         self.table = table          # rid -> recipe | ('raise', excname)
         self.quirks = set(quirks)
         self.log = []
@@ -179,10 +207,12 @@ class Model:
 
     # -- expression evaluation
     def f(self, rid):
+        if not isinstance(rid, int):
+            return rid.ev(self)
         self.log.append(rid)
         r = self.table[rid]
         if isinstance(r, tuple) and r[0] == 'raise':
-            raise Boom(rid)
+            raise make_exc(r[1], rid)
         return build_value(r)
 
     @staticmethod
@@ -215,6 +245,14 @@ class Model:
                 v = self.env.get(n, MISSING)
                 s += 'U' if v is MISSING else (self.to_text(v, True) or '')
             return self.emit(s + ']')
+        if isinstance(node, IText):
+            for kind, x in node.parts:
+                if kind == 'lit':
+                    self.emit(exprs.undouble(x))
+                else:
+                    t = self.to_text(self.f(x), True)
+                    self.emit(t or '')
+            return
         if node.indent is not None:
             self.emit('\n' + ' ' * node.indent)
         st = node.stmts
@@ -223,13 +261,13 @@ class Model:
             saved_env = dict(self.env)
             try:
                 self.element(node, switch)
-            except Boom as e:
+            except Exception as e:
                 del self.out[mark:]
                 if 'onerror-keeps-locals' not in self.quirks:
                     keep = {k: v for k, v in self.env.items() if k in self.globals_defined}
                     self.env = saved_env
                     self.env.update(keep)
-                self.handler_calls.append(e.args[0])
+                self.handler_calls.append(e.args[0] if isinstance(e, Boom) and e.args else type(e).__name__)
                 mode, rid = st['on-error']
                 omitted = 'omit' in st or getattr(node, 'model_omit', False)
                 if not omitted:
@@ -261,7 +299,7 @@ class Model:
                     self.env[k] = v
         try:
             self.guards(node, switch, bind, saved)
-        except Boom:
+        except Exception:
             # reference semantics: local bindings end with their element on every exit.  The known
             # mechanism 'onerror-keeps-locals' (restore code is straight-line, not finally) skips this.
             if 'onerror-keeps-locals' not in self.quirks:
@@ -321,6 +359,37 @@ class Model:
         else:
             self.body(node, switch)
 
+    def static_value(self, v):
+        if isinstance(v, str):
+            return v
+        out = []
+        for kind, x in v.parts:
+            if kind == 'lit':
+                out.append(exprs.undouble(x))
+            else:
+                t = self.to_text(self.f(x), True, '"')
+                out.append(t or '')
+        return ''.join(out)
+
+    raised_in_attribute_group = False
+
+    def start_tag_attributes(self, node, st):
+        attrs = [[k, self.static_value(v)] for k, v in node.statics]
+        for name, rid in st.get('attributes', ()):
+            val = self.f(rid)
+            hit = [a for a in attrs if a[0].lower() == name.lower()]
+            if val is DEFAULT:
+                if hit:
+                    hit[0][0] = name
+                continue
+            text = self.to_text(val, True, '"')
+            if hit:
+                hit[0][0] = name
+                hit[0][1] = text
+            else:
+                attrs.append([name, text])
+        return attrs
+
     def body(self, node, switch):
         st = node.stmts
         if 'switch' in st:
@@ -337,20 +406,14 @@ class Model:
         if 'omit' in st:
             omit = True if st['omit'] is None else self.truth(self.f(st['omit']))
         if not omit:
-            attrs = [[k, v] for k, v in node.statics]
-            for name, rid in st.get('attributes', ()):
-                val = self.f(rid)
-                hit = [a for a in attrs if a[0].lower() == name.lower()]
-                if val is DEFAULT:
-                    if hit:
-                        hit[0][0] = name
-                    continue
-                text = self.to_text(val, True, '"')
-                if hit:
-                    hit[0][0] = name
-                    hit[0][1] = text
-                else:
-                    attrs.append([name, text])
+            n_exprs = len(st.get('attributes', ())) + sum(1 for k, v in node.statics if not isinstance(v, str))
+            try:
+                attrs = self.start_tag_attributes(node, st)
+            except Exception:
+                if n_exprs >= 2:
+                    # which members of the group ran before the failing one is unspecified
+                    self.raised_in_attribute_group = True
+                raise
             self.emit('<' + node.tag + ''.join(' %s="%s"' % (k, v) for k, v in attrs if v is not None) + '>')
         if 'content' in st:
             mode, rid = st['content']
@@ -369,16 +432,18 @@ class Model:
             self.emit('</' + node.tag + '>')
 
 
-def run_model(root, table, quirks=()):
-    m = Model(table, quirks)
+def run_model(root, table, quirks=(), extra=None):
+    m = Model(table, quirks, extra)
     try:
         m.render(root)
-        return {'out': ''.join(m.out), 'log': m.log, 'exc': None, 'handled': m.handler_calls}
-    except Boom as e:
-        return {'out': None, 'log': m.log, 'exc': 'Boom', 'handled': m.handler_calls}
+        return {'out': ''.join(m.out), 'log': m.log, 'exc': None, 'handled': m.handler_calls,
+                'loose_log': m.raised_in_attribute_group}
+    except Exception as e:
+        return {'out': None, 'log': m.log, 'exc': type(e).__name__, 'handled': m.handler_calls,
+                'loose_log': m.raised_in_attribute_group}
 
 
-def run_real(src, table, cfg=None, extra=None):
+def run_real(src, table, cfg=None, extra=None, may_raise=False):
     """Render with the real engine; same result shape as run_model."""
     from chameleon import PageTemplate
     log = []
@@ -388,7 +453,7 @@ def run_real(src, table, cfg=None, extra=None):
         log.append(rid)
         r = table[rid]
         if isinstance(r, tuple) and r[0] == 'raise':
-            raise Boom(rid)
+            raise make_exc(r[1], rid)
         return build_value(r, real=True)
     cfg = dict(cfg or {})
 
@@ -402,11 +467,27 @@ def run_real(src, table, cfg=None, extra=None):
     try:
         out = t(f=f, **(extra or {}))
         return {'out': out, 'log': log, 'exc': None, 'handled': handled}
-    except Boom:
-        return {'out': None, 'log': log, 'exc': 'Boom', 'handled': handled}
     except Exception as e:
-        return {'out': None, 'log': log, 'exc': '%s: %s' % (type(e).__name__, str(e).split('\n')[0][:120]),
-                'handled': handled}
+        planted = may_raise or any(isinstance(v, tuple) for v in table.values())
+        name = type(e).__name__
+        if planted and name in EXC or name == 'UnicodeDecodeError':
+            return {'out': None, 'log': log, 'exc': name, 'handled': handled}
+        return {'out': None, 'log': log, 'exc': '%s: %s' % (name, str(e).split('\n')[0][:120]), 'handled': handled}
+
+
+def rids_of(x):
+    """All recording-callable ids inside an expression slot."""
+    if isinstance(x, int):
+        return [x]
+    out = []
+    for v in vars(x).values():
+        if isinstance(v, (int, Expr)) and not isinstance(v, bool):
+            out += rids_of(v)
+        elif isinstance(v, (list, tuple)):
+            for y in v:
+                if isinstance(y, (int, Expr)) and not isinstance(y, bool):
+                    out += rids_of(y)
+    return out
 
 
 def attribute_groups(node, groups=None):
@@ -416,7 +497,14 @@ def attribute_groups(node, groups=None):
         groups = {}
     if isinstance(node, El):
         for name, rid in node.stmts.get('attributes', ()):
-            groups[rid] = id(node)
+            for r in rids_of(rid):
+                groups[r] = id(node)
+        for k, v in node.statics:
+            if not isinstance(v, str):
+                for kind, x in v.parts:
+                    if kind == 'expr':
+                        for r in rids_of(x):
+                            groups[r] = id(node)
         for k in node.kids:
             attribute_groups(k, groups)
     return groups
@@ -442,8 +530,194 @@ def normalise_log(log, groups):
 
 
 def same(a, b, with_handled=False, groups=None):
+    loose = a.get('loose_log') or b.get('loose_log')
+    if loose and a['exc'] and b['exc'] and a['out'] is None and b['out'] is None \
+            and ':' not in a['exc'] and ':' not in b['exc']:
+        # two members of one start tag fail: which one is met first is unspecified
+        return True
     if a['out'] != b['out'] or a['exc'] != b['exc']:
         return False
-    if normalise_log(a['log'], groups) != normalise_log(b['log'], groups):
+    if a.get('loose_log') or b.get('loose_log'):
+        pass        # the failure happened inside a multi-expression start tag: evaluation set not comparable
+    elif normalise_log(a['log'], groups) != normalise_log(b['log'], groups):
         return False
     return not with_handled or a['handled'] == b['handled']
+
+
+# --------------------------------------------------------------------------
+# TALES expression AST (C04).  ser() gives template text, ev(model) the reference value.
+class Expr:
+    pass
+
+
+class Var(Expr):
+    def __init__(self, name):
+        self.name = name
+
+    def ser(self):
+        return self.name
+
+    def ev(self, m):
+        if self.name in m.env:
+            return m.env[self.name]
+        if self.name in m.extra:
+            return m.extra[self.name]
+        if hasattr(_b, self.name):
+            return getattr(_b, self.name)
+        raise NameError(self.name)
+
+
+class Lit(Expr):
+    def __init__(self, src):
+        self.src = src
+
+    def ser(self):
+        return self.src
+
+    def ev(self, m):
+        return eval(self.src, {})
+
+
+class Attr(Expr):
+    """base.name with the documented fallback from attribute to item lookup."""
+
+    def __init__(self, base, name):
+        self.base, self.name = base, name
+
+    def ser(self):
+        return '%s.%s' % (self.base.ser(), self.name)
+
+    def ev(self, m):
+        obj = self.base.ev(m)
+        try:
+            return getattr(obj, self.name)
+        except AttributeError as exc:
+            get = getattr(obj, '__getitem__', None)
+            if get is None:
+                raise
+            try:
+                return get(self.name)
+            except KeyError:
+                raise exc
+
+
+class Call(Expr):
+    def __init__(self, fn, args):
+        self.fn, self.args = fn, args
+
+    def ser(self):
+        return '%s(%s)' % (self.fn.ser(), ', '.join(E(a) for a in self.args))
+
+    def ev(self, m):
+        fn = self.fn.ev(m)
+        return fn(*[m.f(a) for a in self.args])
+
+
+class Pipe(Expr):
+    def __init__(self, alts):
+        self.alts = alts
+
+    def ser(self):
+        return ' | '.join(E(a) for a in self.alts)
+
+    def ev(self, m):
+        for i, a in enumerate(self.alts):
+            try:
+                return m.f(a)
+            except FALLTHROUGH:
+                if i == len(self.alts) - 1:
+                    raise
+
+
+class Not(Expr):
+    def __init__(self, e):
+        self.e = e
+
+    def ser(self):
+        return 'not: ' + E(self.e)
+
+    def ev(self, m):
+        return not m.f(self.e)
+
+
+class Exists(Expr):
+    def __init__(self, e):
+        self.e = e
+
+    def ser(self):
+        return 'exists: ' + E(self.e)
+
+    def ev(self, m):
+        try:
+            m.f(self.e)
+        except EXISTS_CATCH:
+            return 0
+        return 1
+
+
+class PyPref(Expr):
+    def __init__(self, e):
+        self.e = e
+
+    def ser(self):
+        return 'python: ' + E(self.e)
+
+    def ev(self, m):
+        return m.f(self.e)
+
+
+class Struct(Expr):
+    """structure: prefix — the value is markup (inserted unescaped)."""
+
+    def __init__(self, e):
+        self.e = e
+
+    def ser(self):
+        return 'structure: ' + E(self.e)
+
+    def ev(self, m):
+        v = m.f(self.e)
+        return exprs.Markup(exprs.to_text(v)) if v is not None else exprs.Markup('None')
+
+
+class Str(Expr):
+    """string: expression; parts are literal text or expression slots."""
+
+    def __init__(self, parts):
+        self.parts = parts
+
+    def ser(self):
+        return 'string:' + ''.join(p if isinstance(p, str) else '${%s}' % E(p) for p in self.parts)
+
+    def ev(self, m):
+        out = []
+        for p in self.parts:
+            if isinstance(p, str):
+                out.append(p.replace('$$', '$'))
+            else:
+                v = m.f(p)
+                out.append('' if v is None else exprs.to_text(v))
+        return ''.join(out)
+
+
+class Import(Expr):
+    def __init__(self, dotted):
+        self.dotted = dotted
+
+    def ser(self):
+        return 'import: ' + self.dotted
+
+    def ev(self, m):
+        import importlib
+        parts = self.dotted.split('.')
+        mod = importlib.import_module(parts[0])
+        for p in parts[1:]:
+            mod = getattr(mod, p)
+        return mod
+
+
+class IText:
+    """Text node with ${...} parts: ('lit', s) | ('expr', slot)."""
+
+    def __init__(self, parts):
+        self.parts = parts
